@@ -242,6 +242,11 @@ func handleExceptionSignal(vm *r.VM, blockModule *r.Module, blockDepth int, catc
 
 				return rtnValue, nil
 			}
+			// 结束循环 / 继续循环 inside the handler: the handler has ended, its frame must
+			// not stay on the call stack (the signal goes on to the enclosing loop)
+			if isLoopSignal(err) {
+				vm.PopCallFrame()
+			}
 			return nil, err
 		}
 	}
